@@ -289,6 +289,19 @@ func cmdCheck(args []string) {
 				assume = append(assume, "assumed contract (extern, unchecked): "+k)
 			}
 		}
+		seenAL := map[string]bool{}
+		for _, fk := range funcsUnder {
+			k := strings.Fields(fk + " x")[0]
+			if seenAL[k] {
+				continue
+			}
+			seenAL[k] = true
+			if c := v.specs.Contracts[k]; c != nil {
+				for _, a := range c.AfterLock {
+					assume = append(assume, "monitor invariant assumed after lock acquisition in "+k+" (not asserted at the other critical sections): "+a.Src)
+				}
+			}
+		}
 		for k := range noCon {
 			assume = append(assume, "repo function called without a contract (results and all heap havoced — over-approximation): "+k)
 		}
